@@ -2106,4 +2106,277 @@ theorem wsdLoop_stable {c : Cls} {g : Seg} {ss : BitVec 64} (l : List (BitVec 16
         obtain ⟨b1, b2⟩ := ih h a2
         exact ⟨b1.trans a1, b2⟩
 
+/-! ### alignment pass and segment ordering on finished segments -/
+
+/-- the alignment pass does nothing to a segment whose alignment already dominates its members' -/
+theorem calcSegAlign_fix {secs : List SecBuf} {g : Seg}
+    (h : ∀ idx ∈ g.secs, ∃ s, secs[idx.toNat]? = some s ∧ s.addrAlign.toNat ≤ g.align.toNat) :
+    calcSegAlign secs g = .ok g := by
+  unfold calcSegAlign
+  generalize g.secs = l at h
+  induction l with
+  | nil => rfl
+  | cons idx rest ih =>
+    obtain ⟨s, hs, hle⟩ := h idx List.mem_cons_self
+    simp only [List.foldlM_cons, hs, pure_bind]
+    have : BitVec.ult g.align s.addrAlign = false := by
+      simp only [BitVec.ult, decide_eq_false_iff_not]; omega
+    rw [this]
+    simp only [Bool.false_eq_true, if_false]
+    exact ih (fun i hi => h i (List.mem_cons_of_mem _ hi))
+
+/-- after the alignment pass the segment's alignment dominates every member's -/
+theorem calcSegAlign_fold_ge {secs : List SecBuf} (l : List (BitVec 16)) {g g' : Seg}
+    (h : l.foldlM (fun g idx =>
+      match secs[idx.toNat]? with
+      | none => (throw (Fault.vecOob "calc_segment_alignment/sections_[index]") : M Seg)
+      | some s => pure (if BitVec.ult g.align s.addrAlign then { g with align := s.addrAlign } else g)) g = .ok g') :
+    g.align.toNat ≤ g'.align.toNat ∧
+    ∀ idx ∈ l, ∃ s, secs[idx.toNat]? = some s ∧ s.addrAlign.toNat ≤ g'.align.toNat := by
+  induction l generalizing g with
+  | nil =>
+    simp only [List.foldlM_nil, pure, Except.pure, Except.ok.injEq] at h; subst h
+    exact ⟨Nat.le_refl _, fun i hi => by cases hi⟩
+  | cons idx rest ih =>
+    simp only [List.foldlM_cons, bind, Except.bind] at h
+    cases hs : secs[idx.toNat]? with
+    | none => rw [hs] at h; cases h
+    | some s =>
+      rw [hs] at h
+      simp only [pure, Except.pure] at h
+      obtain ⟨le, rest'⟩ := ih h
+      have hge : g.align.toNat ≤ g'.align.toNat ∧ s.addrAlign.toNat ≤ g'.align.toNat := by
+        by_cases hlt : BitVec.ult g.align s.addrAlign = true
+        · rw [if_pos hlt] at le
+          simp only [BitVec.ult, decide_eq_true_eq] at hlt
+          simp only at le
+          exact ⟨by omega, le⟩
+        · rw [if_neg hlt] at le
+          simp only [BitVec.ult, decide_eq_true_eq] at hlt
+          exact ⟨le, by omega⟩
+      refine ⟨hge.1, fun i hi => ?_⟩
+      rcases List.mem_cons.1 hi with e | e
+      · subst e; exact ⟨s, hs, hge.2⟩
+      · exact rest' i e
+
+theorem calcSegAlign_ge {secs : List SecBuf} {g g' : Seg} (h : calcSegAlign secs g = .ok g') :
+    ∀ idx ∈ g.secs, ∃ s, secs[idx.toNat]? = some s ∧ s.addrAlign.toNat ≤ g'.align.toNat :=
+  (calcSegAlign_fold_ge g.secs h).2
+
+/-- no segment is (already) at file offset 0 -/
+def NoZeroOffset (segs : List Seg) : Prop := ∀ g ∈ segs, (g.offsetSet && g.offset == 0) = false
+
+theorem orderFront_go_id (n : Nat) (fuel i ns : Nat) (wl : Array Seg) (hn : n = wl.size)
+    (h : NoZeroOffset wl.toList) : orderFront.go n i ns wl fuel = .ok wl := by
+  induction fuel generalizing i ns with
+  | zero => unfold orderFront.go; rfl
+  | succ fuel ih =>
+    unfold orderFront.go
+    split
+    · rfl
+    · rename_i hlt
+      cases hs : wl[i]? with
+      | none =>
+        have : i < wl.size := by omega
+        rw [Array.getElem?_eq_getElem this] at hs; cases hs
+      | some si =>
+        simp only
+        have hm : si ∈ wl.toList := by
+          have := Array.mem_of_getElem? hs
+          simpa using this
+        have := h si hm
+        have hc : (i != ns && si.offsetSet && si.offset == 0) = false := by
+          rw [Bool.and_assoc, this, Bool.and_false]
+        rw [hc]
+        simp only [Bool.false_eq_true, if_false]
+        exact ih _ _
+
+theorem orderFront_id (wl : Array Seg) (h : NoZeroOffset wl.toList) : orderFront wl = .ok wl := by
+  unfold orderFront; exact orderFront_go_id _ _ _ _ _ rfl h
+
+theorem any_congr' {α} {l : List α} {p q : α → Bool} (h : ∀ a ∈ l, p a = q a) : l.any p = l.any q := by
+  induction l with
+  | nil => rfl
+  | cons a r ih =>
+    simp only [List.any_cons]
+    rw [h a List.mem_cons_self, ih (fun b hb => h b (List.mem_cons_of_mem _ hb))]
+
+/-- the second ordering loop only looks at the member lists -/
+theorem orderTopo_map (φ : Seg → Seg) (P : Seg → Prop) (hφ : ∀ g, P g → (φ g).secs = g.secs) (fuel : Nat)
+    (wl res : List Seg) (hP : ∀ g ∈ wl ++ res, P g) :
+    orderTopo (wl.map φ) (res.map φ) fuel = (orderTopo wl res fuel).map (List.map φ) := by
+  have hsub : ∀ a b, P a → P b → isSubsequenceOf (φ a) (φ b) = isSubsequenceOf a b := by
+    intro a b ha hb; unfold isSubsequenceOf; rw [hφ a ha, hφ b hb]
+  induction fuel generalizing wl res with
+  | zero =>
+    cases wl with
+    | nil => simp [orderTopo, Except.map, pure, Except.pure]
+    | cons a r => simp only [List.map_cons, orderTopo]; rfl
+  | succ fuel ih =>
+    cases wl with
+    | nil => simp [orderTopo, Except.map, pure, Except.pure]
+    | cons a r =>
+      simp only [List.map_cons, orderTopo]
+      have ha : P a := hP a (by simp)
+      have hany : (List.map φ r).any (isSubsequenceOf (φ a)) = r.any (isSubsequenceOf a) := by
+        rw [List.any_map]
+        apply any_congr'
+        intro b hb
+        exact hsub a b ha (hP b (by simp [hb]))
+      rw [hany]
+      split
+      · have := ih (r ++ [a]) res (fun g hg => hP g (by
+          simp only [List.mem_append, List.mem_cons, List.mem_singleton, List.not_mem_nil, or_false] at hg ⊢
+          rcases hg with (h | h) | h
+          · exact Or.inl (Or.inr h)
+          · exact Or.inl (Or.inl h)
+          · exact Or.inr h))
+        simp only [List.map_append, List.map_cons, List.map_nil] at this
+        exact this
+      · have := ih r (a :: res) (fun g hg => hP g (by
+          simp only [List.mem_append, List.mem_cons] at hg ⊢
+          rcases hg with h | h | h
+          · exact Or.inl (Or.inr h)
+          · exact Or.inl (Or.inl h)
+          · exact Or.inr h))
+        simp only [List.map_cons] at this
+        exact this
+
+theorem orderTopo_perm (fuel : Nat) (wl res out : List Seg) (h : orderTopo wl res fuel = .ok out) :
+    out.Perm (wl ++ res) := by
+  induction fuel generalizing wl res with
+  | zero =>
+    cases wl with
+    | nil =>
+      simp only [orderTopo, pure, Except.pure, Except.ok.injEq] at h; subst h
+      simpa using List.reverse_perm res
+    | cons a r => simp only [orderTopo] at h; cases h
+  | succ fuel ih =>
+    cases wl with
+    | nil =>
+      simp only [orderTopo, pure, Except.pure, Except.ok.injEq] at h; subst h
+      simpa using List.reverse_perm res
+    | cons a r =>
+      simp only [orderTopo] at h
+      split at h
+      · have := ih _ _ h
+        refine this.trans ?_
+        have : ((r ++ [a]) ++ res).Perm ((a :: r) ++ res) := by
+          apply List.Perm.append_right
+          simpa using (List.perm_append_comm (l₁ := r) (l₂ := [a]))
+        exact this
+      · have := ih _ _ h
+        refine this.trans ?_
+        simpa using (List.perm_middle (a := a) (l₁ := r) (l₂ := res))
+
+/-- without offset-0 segments, the layout order is a permutation of the segments … -/
+theorem orderedSegments_perm {segs ordered : List Seg} (hz : NoZeroOffset segs)
+    (h : orderedSegments segs = .ok ordered) : ordered.Perm segs := by
+  unfold orderedSegments at h
+  rw [orderFront_id _ (by simpa using hz)] at h
+  simp only [bind, Except.bind] at h
+  have := orderTopo_perm _ _ _ _ h
+  simpa using this
+
+/-- … that depends on the member lists only -/
+theorem orderedSegments_map {segs ordered : List Seg} (φ : Seg → Seg) (hφ : ∀ g ∈ segs, (φ g).secs = g.secs)
+    (hz : NoZeroOffset segs) (hz' : NoZeroOffset (segs.map φ)) (h : orderedSegments segs = .ok ordered) :
+    orderedSegments (segs.map φ) = .ok (ordered.map φ) := by
+  unfold orderedSegments at h ⊢
+  rw [orderFront_id _ (by simpa using hz)] at h
+  rw [orderFront_id _ (by simpa using hz')]
+  simp only [bind, Except.bind, List.length_map] at h ⊢
+  have := orderTopo_map φ (· ∈ segs) hφ (segs.length * segs.length + segs.length + 1) segs []
+    (fun g hg => by simpa using hg)
+  simp only [List.map_nil] at this
+
+  rw [this, h]
+  rfl
+
+/-! ### putting finished segments back, again -/
+
+/-- the replacement `putBack` performs, as a function -/
+def backFn (done : List Seg) (g : Seg) : Seg := (done.find? (fun d => d.index == g.index)).getD g
+
+theorem putBack_eq_map (segs done : List Seg) : putBack segs done = segs.map (backFn done) := rfl
+
+theorem backFn_index (done : List Seg) (g : Seg) : (backFn done g).index = g.index := by
+  unfold backFn
+  cases h : done.find? (fun d => d.index == g.index) with
+  | none => rfl
+  | some d => have := List.find?_some h; simpa using this
+
+theorem backFn_idem (done : List Seg) (g : Seg) : backFn done (backFn done g) = backFn done g := by
+  have hi := backFn_index done g
+  unfold backFn at hi ⊢
+  cases h : done.find? (fun d => d.index == g.index) with
+  | none => simp only [Option.getD_none, h]
+  | some d =>
+    rw [h] at hi
+    simp only [Option.getD_some] at hi ⊢
+    rw [hi, h]; rfl
+
+theorem putBack_idem (segs done : List Seg) : putBack (putBack segs done) done = putBack segs done := by
+  rw [putBack_eq_map, putBack_eq_map, List.map_map]
+  apply List.map_congr_left
+  intro g _
+  exact backFn_idem done g
+
+theorem find?_of_unique {α} {l : List α} {p : α → Bool} {k : Nat} {x : α} (hk : l[k]? = some x) (hp : p x = true)
+    (hu : ∀ (j : Nat) y, j ≠ k → l[j]? = some y → p y = false) : l.find? p = some x := by
+  induction l generalizing k with
+  | nil => cases hk
+  | cons a rest ih =>
+    cases k with
+    | zero =>
+      simp only [List.getElem?_cons_zero, Option.some.injEq] at hk; subst hk
+      simp [List.find?, hp]
+    | succ k' =>
+      simp only [List.getElem?_cons_succ] at hk
+      have ha : p a = false := hu 0 a (by omega) (by simp)
+      simp only [List.find?, ha]
+      exact ih hk (fun j y hj hy => hu (j + 1) y (by omega) (by simpa using hy))
+
+theorem All2.getElem? {α β} {R : α → β → Prop} {l : List α} {l' : List β} (h : All2 R l l') :
+    l'.length = l.length ∧ ∀ (k : Nat) a b, l[k]? = some a → l'[k]? = some b → R a b := by
+  induction h with
+  | nil => exact ⟨rfl, fun k a b h => by cases h⟩
+  | cons hr _ ih =>
+    refine ⟨by simp [ih.1], fun k a b ha hb => ?_⟩
+    cases k with
+    | zero => simp only [List.getElem?_cons_zero, Option.some.injEq] at ha hb; subst ha; subst hb; exact hr
+    | succ j => simp only [List.getElem?_cons_succ] at ha hb; exact ih.2 j a b ha hb
+
+/-- with pairwise distinct indices, putting the finished segments back turns each ordered segment
+    into its finished version -/
+theorem map_backFn_eq {ordered ds : List Seg} (hr : All2 (fun g d => d.index = g.index) ordered ds)
+    (hd : ordered.Pairwise (fun a b => a.index ≠ b.index)) : ordered.map (backFn ds) = ds := by
+  obtain ⟨hlen, hrel⟩ := All2.getElem? hr
+  apply List.ext_getElem?
+  intro k
+  rw [List.getElem?_map]
+  rcases Nat.lt_or_ge k ordered.length with hk | hk
+  · have hk' : k < ds.length := by rw [hlen]; exact hk
+    rw [List.getElem?_eq_getElem hk, List.getElem?_eq_getElem hk']
+    simp only [Option.map_some, Option.some.injEq]
+    have hik := hrel k _ _ (List.getElem?_eq_getElem hk) (List.getElem?_eq_getElem hk')
+    unfold backFn
+    rw [find?_of_unique (List.getElem?_eq_getElem hk') (by simpa using hik) (fun j y hj hy => by
+      have hj' : j < ds.length := by
+        rcases Nat.lt_or_ge j ds.length with h | h
+        · exact h
+        · rw [List.getElem?_eq_none h] at hy; cases hy
+      have hj'' : j < ordered.length := by rw [← hlen]; exact hj'
+      have hij := hrel j _ _ (List.getElem?_eq_getElem hj'') hy
+      have hne : ordered[j].index ≠ ordered[k].index := by
+        rw [List.pairwise_iff_getElem] at hd
+        rcases Nat.lt_or_gt_of_ne hj with h | h
+        · exact hd j k hj'' hk h
+        · exact fun e => hd k j hk hj'' h e.symm
+      simp only [beq_eq_false_iff_ne, ne_eq]
+      rw [hij]; exact hne)]
+    rfl
+  · rw [List.getElem?_eq_none hk, List.getElem?_eq_none (by rw [hlen]; exact hk)]; rfl
+
+
 end ElfioVerif
